@@ -151,6 +151,34 @@ def r_pair_eq(A, ctx, scope, rule="R-PAIR-EQ"):
             verdict(key, gfn, [(f"grad[{i}]", R(g[i]) - R(g0[i]), Gdw[i]) for i in range(P)], rg)
         guard(key, gfn, body)
 
+    # ---------------------------------------------------------------- primal-dual subproblem
+    pd = next((c for c in prog.solvers if c.name == "PDCD_WS"), None)
+    sq = next((c for c in prog.datafits if c.name == "SqrtQuadratic"), None)
+    if pd is not None and sq is not None and "_solve_subproblem" in pd.methods:
+        pfn = pd.methods["_solve_subproblem"]
+        key = f"{pfn.fq}::SqrtQuadratic"
+
+        def body_pd():
+            L, rg = fresh()
+            for i in range(N):
+                rg.values[f"z{i}"] = 0.2 - 0.15 * i
+                rg.values[f"zb{i}"] = -0.1 + 0.12 * i
+            for j in range(P):
+                rg.values[f"ps{j}"] = 0.5 + 0.1 * j
+            rg.values["ds"] = 0.4
+            dobj = make_obj(prog, sq)
+            pobj = Obj(l1, {"alpha": sym("alpha"), "positive": False})
+            w0 = Vec(sym(f"w{j}") for j in range(P))
+            Xw0 = Vec(sym(f"Xw{i}") for i in range(N))
+            w, Xw = Vec(w0), Vec(Xw0)
+            z = Vec(sym(f"z{i}") for i in range(N))
+            zb = Vec(sym(f"zb{i}") for i in range(N))
+            ps = Vec(sym(f"ps{j}") for j in range(P))
+            L.call_function(pfn, [y, X, w, Xw, z, zb, dobj, pobj, ps, sym("ds"), Vec([2, 0]), 1, sym("BIGTOL")])
+            Xdw = L.dot(X, _sub(L, w, w0))
+            verdict(key, pfn, [(f"Xw[{i}]", R(Xw[i]) - R(Xw0[i]), Xdw[i]) for i in range(N)], rg)
+        guard(key, pfn, body_pd)
+
     # ---------------------------------------------------------------- prox-Newton directions
     pn = "skglm.solvers.prox_newton"
     ws = Vec([2, 0])
